@@ -124,6 +124,35 @@ var registry = []HarnessSpec{
 		Desc:   "encoder.HTMLEscape (alg.HtmlEscape) never panics, whatever prefix/capacity the destination has",
 		Bounds: "src 1..3 bytes; dst len in 0..2 or 66..80, cap up to 90"},
 
+	{Prop: "C14", Pkg: mod + "/ast", PkgName: "ast", Func: "VerifC14ObjectGet", Tier: "quick", Covers: []string{"missing", "found", "duplicate"},
+		Desc:    "Node.Get on a raw object: first occurrence of the key or not-exist; Raw() and Int64() of the located node describe exactly that value",
+		Bounds:  "objects of 3 pairs, 1-byte keys over {a,b} (duplicates included), 1-digit values, search key over {a,b,c}",
+		Assumes: []string{"native value/skip_one/skip_one_fast/get_by_path behave like the repository's pure-Go implementations in ast/decode.go and ast/api_compat.go (what non-amd64 builds execute); counterexamples are replayed against the real natives"}},
+	{Prop: "C14", Pkg: mod + "/ast", PkgName: "ast", Func: "VerifC14SearcherGet", Tier: "quick", Covers: []string{"missing", "found"},
+		Desc:   "Searcher.GetByPath (the Go code around the native path search used by sonic.Get*) agrees with the first-occurrence reference for all 8 SearchOptions combinations",
+		Bounds: "objects of 3 pairs as above; ValidateJSON x CopyReturn x ConcurrentRead symbolic"},
+	{Prop: "C14", Pkg: mod + "/ast", PkgName: "ast", Func: "VerifC14ArrayIndex", Tier: "quick", Covers: []string{"out-of-range", "found"},
+		Desc:   "Node.Index / Len on a raw array for in-range, negative and too-large indexes",
+		Bounds: "arrays of 3 one-digit elements, index -1..4"},
+	{Prop: "C14", Pkg: mod + "/ast", PkgName: "ast", Func: "VerifC14BigObjectGet", Tier: "quick", Covers: []string{"missing", "indexed", "lazy", "duplicate"},
+		Desc:   "Node.Get on a 17-member object (hash index threshold crossed): first occurrence of the key, lazily loaded or fully loaded (indexed)",
+		Bounds: "17 pairs; first and last key 'x'+{a,b} (duplicate included), 15 fixed keys; strhash uninterpreted (collisions included)"},
+	{Prop: "C15", Pkg: mod + "/ast", PkgName: "ast", Func: "VerifC14BigObjectGet", Tier: "quick", Covers: []string{"indexed", "lazy"},
+		Desc:   "lazy loading unobservable: Get on a 17-member object answers the same before and after LoadAll",
+		Bounds: "as VerifC14BigObjectGet"},
+	{Prop: "C15", Pkg: mod + "/ast", PkgName: "ast", Func: "VerifC15ObjectOps", Tier: "quick", Covers: []string{"lazy", "loaded", "end"},
+		Desc:   "Set/Unset/Get sequences on a 3-member object in raw, lazy or loaded state: every lookup equals an ordered-map model after each step",
+		Bounds: "3 distinct 1-byte keys, 1-digit values; all sequences of 2 operations over {Set,Unset,Get} with symbolic key in {a,b,c,d} and value"},
+	{Prop: "C15", Pkg: mod + "/ast", PkgName: "ast", Func: "VerifC15ArrayOps", Tier: "quick", Covers: []string{"lazy", "loaded", "end"},
+		Desc:   "SetByIndex/UnsetByIndex/Add/Pop sequences on a 3-element array in raw, lazy or loaded state vs. a slice model (every index observed after each step)",
+		Bounds: "3 one-digit elements; all sequences of 2 operations with symbolic index -1..4"},
+	{Prop: "C07", Pkg: mod + "/ast", PkgName: "ast", Func: "VerifC07NodeUnmarshalJSON", Tier: "quick", Covers: []string{"end"},
+		Desc:   "ast.(*Node).UnmarshalJSON never panics on short input (including the empty slice)",
+		Bounds: "all inputs of 0..2 bytes"},
+	{Prop: "C02", Pkg: mod + "/ast", PkgName: "ast", Func: "VerifC02NewRawTrailing", Tier: "quick", Covers: []string{"valid", "trailing-garbage"},
+		Desc:   "ast.NewRaw accepts exactly one value followed only by JSON spaces",
+		Bounds: "documents '1' + two bytes over {space, newline, x, comma, 1, ]}"},
+
 	{Prop: "C03", Pkg: mod + "/internal/encoder/alg", PkgName: "alg", Func: "VerifC03IsValidNumber", Tier: "quick", Covers: []string{"valid", "invalid"},
 		Desc:   "alg.IsValidNumber agrees with the real encoding/json.isValidNumber (executed from stdlib SSA)",
 		Bounds: "all strings of length 0..6"},
